@@ -977,17 +977,19 @@ class C12(Spec):
                   "stop-token cancellation terminates, destruction cancels everything — for every operation list, any number of workers, "
                   "and every heap implementation meeting the contract of std::push_heap/pop_heap (hence every tie-break; libstdc++'s "
                   "algorithms are proved to meet it); the model is tied to scheduler.h by running both on generated histories in four "
-                  "modes (manual, start(awaitable), std::thread, thread_pool; virtual clock) and diffing every line; relational property "
-                  "oracles (multiset of pending sleeps, wake-up clock = time point) run on the implementation traces")
+                  "modes (manual, start(awaitable), std::thread, thread_pool; virtual clock; in thread/pool mode also with the worker stepped "
+                  "one lock region at a time between public calls) and diffing every line; relational property oracles (multiset of "
+                  "pending sleeps, wake-up clock = time point, parked worker's deadline <= every pending time point) run on the traces")
     level_note = ("trusted: Lean kernel (axioms propext/Classical.choice/Quot.sound at most), the hand-written model, the differential "
                   "harness (sampling; virtual clock, interposed mutex/condition_variable), std::mutex/condition_variable/stop_token and the "
-                  "promise/future layer (C01/C02). Thread interleavings are covered by the theorems (every public method is one lock "
-                  "region, so an interleaving is an operation list; cancel's out-of-lock promise resolution touches only the removed "
-                  "promise); on the real code the worker runs in real threads but the controlling thread acts only while it is parked, so "
-                  "races between a public call and a running worker iteration are not exercised, and real blocking/wake-up latency of "
-                  "wait_until is modelled as enabledness under virtual time, not measured. Destruction is one atomic step in the main "
-                  "model; its stop handshake with the worker is a separate micro-step model (Stop.*, c12_stop_not_lost) replayed on the "
-                  "header by one forced interleaving (stop-race suite).")
+                  "promise/future layer (C01/C02). Thread interleavings are covered by the theorems at the granularity of the code's lock "
+                  "regions (every public method and every worker iteration is one region; cancel's out-of-lock promise resolution touches "
+                  "only the removed promise); on the real code they are exercised at the same granularity: the worker-lock-regions suite "
+                  "stalls the real worker (std::thread and thread_pool) in front of every acquisition of the scheduler mutex and runs public "
+                  "calls and ~scheduler there, and checks on every quiescent state that a parked worker's deadline is not later than any "
+                  "pending sleep. Interleavings inside a lock region (they would be data races) and real blocking/wake-up latency of "
+                  "wait_until (modelled as enabledness under virtual time) are not exercised. Destruction is one atomic step in the main "
+                  "model; its stop handshake with the worker is a separate micro-step model (Stop.*, c12_stop_not_lost).")
     assumptions = ["the scheduler is not destroyed while another thread is inside one of its methods",
                    "callbacks attached to sleep futures do not re-enter the scheduler while the worker holds its mutex",
                    "time points and identifiers are modelled as unbounded naturals (no clock overflow)"]
